@@ -1,5 +1,24 @@
 package main
 
+import (
+	"encoding/json"
+	"fmt"
+	"go/types"
+	"os"
+	"os/exec"
+	"path/filepath"
+	"sort"
+	"strings"
+	"time"
+
+	"golang.org/x/tools/go/ssa"
+)
+
+// Replay: a solver model of a failed obligation is turned into a Go test that builds the inputs named by the model,
+// calls the REAL function and evaluates the violated clause dynamically. The test is injected with `go test -overlay`
+// (nothing is written to /repo). Supported: ensures clauses and panic obligations of functions whose inputs can be
+// constructed type-directedly (ints, *big.Int, pointers to structs of the same package, small slices).
+
 type replayResult struct {
 	Attempted  bool   `json:"attempted"`
 	Confirmed  bool   `json:"confirmed"`
@@ -10,8 +29,810 @@ type replayResult struct {
 	Output     string `json:"output,omitempty"`
 }
 
-func tryReplay(prog *Program, o *Obligation, u *Unit) replayResult {
-	return replayResult{Reason: "no replay harness for this kind of obligation yet"}
+// inNode describes one piece of a function input and the SMT term whose model value defines it.
+type inNode struct {
+	Name   string
+	Type   types.Type
+	Term   *Term
+	Idx    int // position in the witness list, -1 if the node has no scalar term
+	BigVal *inNode
+	Fields []*inNode
+	Len    *inNode
+	Elems  []*inNode
 }
 
-func runReplayTest(pkgDir, src, testName string) (string, bool) { return "", false }
+type inputDesc struct {
+	Params  []*inNode
+	Witness []*Term
+}
+
+const maxInputNodes = 120
+
+func (c *Ctx) describeInputs(fn *ssa.Function, params []Val, entry *State) *inputDesc {
+	d := &inputDesc{}
+	budget := maxInputNodes
+	addW := func(t *Term) int {
+		d.Witness = append(d.Witness, t)
+		return len(d.Witness) - 1
+	}
+	var build func(name string, t types.Type, term *Term, depth int) *inNode
+	build = func(name string, t types.Type, term *Term, depth int) *inNode {
+		budget--
+		n := &inNode{Name: name, Type: t, Term: term, Idx: -1}
+		if budget <= 0 || term == nil {
+			return n
+		}
+		switch u := t.Underlying().(type) {
+		case *types.Basic:
+			if term.Sort == SInt || term.Sort == SBool {
+				n.Idx = addW(term)
+			}
+		case *types.Pointer:
+			n.Idx = addW(term)
+			el := u.Elem()
+			if isBigInt(el) {
+				n.BigVal = &inNode{Name: name + ".val", Type: types.Typ[types.Int], Term: tSelect(c.heapGet(entry, c.bigvalName()), term), Idx: -1}
+				n.BigVal.Idx = addW(n.BigVal.Term)
+				return n
+			}
+			if st, ok := el.Underlying().(*types.Struct); ok && !isOpaqueStruct(el) && depth < 3 {
+				for i := 0; i < st.NumFields(); i++ {
+					ft := tSelect(c.heapGet(entry, c.fieldArrayName(el, i)), term)
+					n.Fields = append(n.Fields, build(st.Field(i).Name(), st.Field(i).Type(), ft, depth+1))
+				}
+			}
+		case *types.Struct:
+			if isOpaqueStruct(t) {
+				return n
+			}
+			for i := 0; i < u.NumFields(); i++ {
+				n.Fields = append(n.Fields, build(u.Field(i).Name(), u.Field(i).Type(), c.structField(t, term, i), depth))
+			}
+		case *types.Slice:
+			n.Len = &inNode{Name: name + ".len", Type: types.Typ[types.Int], Term: mk(SInt, "(s.len "+term.S+")"), Idx: -1}
+			n.Len.Idx = addW(n.Len.Term)
+			if depth < 3 {
+				es := c.sortOf(u.Elem())
+				arr := tSelect(c.heapGet(entry, c.elemName(es)), mk(SInt, "(s.arr "+term.S+")"))
+				for k := 0; k < 3; k++ {
+					et := tSelect(arr, mk(SInt, fmt.Sprintf("(sidx %s %d)", term.S, k)))
+					n.Elems = append(n.Elems, build(fmt.Sprintf("%s[%d]", name, k), u.Elem(), et, depth+1))
+				}
+			}
+		case *types.Array:
+			if u.Len() <= 32 {
+				if b, ok := u.Elem().Underlying().(*types.Basic); ok && b.Info()&types.IsInteger != 0 {
+					for k := int64(0); k < u.Len() && k < 4; k++ {
+						n.Elems = append(n.Elems, build(fmt.Sprintf("%s[%d]", name, k), u.Elem(), tSelect(term, intLit(k)), depth+1))
+					}
+				}
+			}
+		}
+		return n
+	}
+	for i, p := range fn.Params {
+		if i < len(params) && params[i].T != nil {
+			d.Params = append(d.Params, build(p.Name(), p.Type(), params[i].T, 0))
+		} else {
+			d.Params = append(d.Params, &inNode{Name: p.Name(), Type: p.Type(), Idx: -1})
+		}
+	}
+	return d
+}
+
+// ---------- Go source generation ----------
+
+type goGen struct {
+	pkg     *types.Package
+	model   map[string]string
+	stmts   []string
+	imports map[string]string // path -> name
+	objs    map[string]string // "ref|type" -> variable
+	nvar    int
+	unsup   string
+}
+
+func (g *goGen) qual(p *types.Package) string {
+	if p == g.pkg {
+		return ""
+	}
+	g.imports[p.Path()] = p.Name()
+	return p.Name()
+}
+
+func (g *goGen) typeStr(t types.Type) string { return types.TypeString(t, g.qual) }
+
+func (g *goGen) val(n *inNode) (string, bool) {
+	if n == nil || n.Idx < 0 {
+		return "", false
+	}
+	v, ok := g.model[fmt.Sprintf("#%d", n.Idx)]
+	return v, ok
+}
+
+func smtInt(v string) (string, bool) {
+	v = strings.TrimSpace(v)
+	if strings.HasPrefix(v, "(- ") && strings.HasSuffix(v, ")") {
+		inner := strings.TrimSpace(v[3 : len(v)-1])
+		if _, ok := smtInt(inner); ok && !strings.HasPrefix(inner, "(") {
+			return "-" + inner, true
+		}
+		return "", false
+	}
+	if v == "" {
+		return "", false
+	}
+	for _, r := range v {
+		if r < '0' || r > '9' {
+			return "", false
+		}
+	}
+	return v, true
+}
+
+func (g *goGen) newVar(prefix string) string {
+	g.nvar++
+	return fmt.Sprintf("%s%d", prefix, g.nvar)
+}
+
+func (g *goGen) accessible(t types.Type, field *types.Var) bool {
+	return field.Exported() || field.Pkg() == g.pkg
+}
+
+// build returns a Go expression for the input described by n under the model.
+func (g *goGen) build(n *inNode) string {
+	t := n.Type
+	switch u := t.Underlying().(type) {
+	case *types.Basic:
+		v, ok := g.val(n)
+		switch {
+		case u.Info()&types.IsBoolean != 0:
+			if ok && v == "true" {
+				return "true"
+			}
+			return "false"
+		case u.Info()&types.IsInteger != 0:
+			if iv, ok2 := smtInt(v); ok && ok2 {
+				return fmt.Sprintf("%s(%s)", g.typeStr(t), iv)
+			}
+			return fmt.Sprintf("%s(0)", g.typeStr(t))
+		case u.Info()&types.IsString != 0:
+			return `""`
+		case u.Info()&types.IsFloat != 0:
+			return "0"
+		}
+		return "0"
+	case *types.Pointer:
+		if named, ok := u.Elem().(*types.Named); ok && named.Obj().Pkg() != nil && named.Obj().Pkg().Path() == "sync" {
+			// locks are not modelled: always give the real code a usable one
+			return "new(" + g.typeStr(u.Elem()) + ")"
+		}
+		ref, ok := g.val(n)
+		if !ok || ref == "0" {
+			return "nil"
+		}
+		key := ref + "|" + t.String()
+		if v, ok := g.objs[key]; ok {
+			return v
+		}
+		el := u.Elem()
+		if isBigInt(el) {
+			bv, _ := g.val(n.BigVal)
+			iv, ok := smtInt(bv)
+			if !ok {
+				iv = "0"
+			}
+			v := g.newVar("b")
+			g.stmts = append(g.stmts, fmt.Sprintf("%s := bi(%q)", v, iv))
+			g.objs[key] = v
+			return v
+		}
+		if named, ok := el.(*types.Named); ok && named.Obj().Pkg() != nil && named.Obj().Pkg().Path() == "sync" {
+			return "new(" + g.typeStr(el) + ")"
+		}
+		if st, ok := el.Underlying().(*types.Struct); ok && !isOpaqueStruct(el) {
+			if named, ok := el.(*types.Named); ok && !named.Obj().Exported() && named.Obj().Pkg() != g.pkg {
+				return "nil"
+			}
+			v := g.newVar("o")
+			g.stmts = append(g.stmts, fmt.Sprintf("%s := new(%s)", v, g.typeStr(el)))
+			g.objs[key] = v
+			for i, fnode := range n.Fields {
+				f := st.Field(i)
+				if !g.accessible(el, f) || f.Name() == "_" {
+					continue
+				}
+				if _, isFunc := f.Type().Underlying().(*types.Signature); isFunc {
+					g.imports["reflect"] = "reflect"
+					ft := g.typeStr(f.Type())
+					g.stmts = append(g.stmts, fmt.Sprintf("%s.%s = reflect.MakeFunc(reflect.TypeOf((%s)(nil)), func(a []reflect.Value) []reflect.Value { return zeroResults(reflect.TypeOf((%s)(nil))) }).Interface().(%s)", v, f.Name(), ft, ft, ft))
+					continue
+				}
+				if isOpaqueStruct(f.Type()) {
+					continue
+				}
+				switch f.Type().Underlying().(type) {
+				case *types.Interface, *types.Chan:
+					continue
+				case *types.Map:
+					g.stmts = append(g.stmts, fmt.Sprintf("%s.%s = %s{}", v, f.Name(), g.typeStr(f.Type())))
+					continue
+				}
+				e := g.build(fnode)
+				if e != "" && e != "nil" {
+					g.stmts = append(g.stmts, fmt.Sprintf("%s.%s = %s", v, f.Name(), e))
+				}
+			}
+			return v
+		}
+		// pointer to scalar
+		return "new(" + g.typeStr(el) + ")"
+	case *types.Struct:
+		if isOpaqueStruct(t) {
+			return g.typeStr(t) + "{}"
+		}
+		v := g.newVar("s")
+		g.stmts = append(g.stmts, fmt.Sprintf("var %s %s", v, g.typeStr(t)))
+		for i, fnode := range n.Fields {
+			f := u.Field(i)
+			if !g.accessible(t, f) || f.Name() == "_" {
+				continue
+			}
+			switch f.Type().Underlying().(type) {
+			case *types.Interface, *types.Chan, *types.Signature, *types.Map:
+				continue
+			}
+			if isOpaqueStruct(f.Type()) {
+				continue
+			}
+			e := g.build(fnode)
+			if e != "" && e != "nil" {
+				g.stmts = append(g.stmts, fmt.Sprintf("%s.%s = %s", v, f.Name(), e))
+			}
+		}
+		return v
+	case *types.Slice:
+		lv, ok := g.val(n.Len)
+		ln, ok2 := smtInt(lv)
+		if !ok || !ok2 || ln == "0" || strings.HasPrefix(ln, "-") {
+			return "nil"
+		}
+		var cnt int
+		fmt.Sscanf(ln, "%d", &cnt)
+		if cnt > len(n.Elems) {
+			g.unsup = fmt.Sprintf("slice %s has %d elements in the model (only %d are constructed)", n.Name, cnt, len(n.Elems))
+			cnt = len(n.Elems)
+		}
+		var es []string
+		for k := 0; k < cnt; k++ {
+			es = append(es, g.build(n.Elems[k]))
+		}
+		return fmt.Sprintf("%s{%s}", g.typeStr(t), strings.Join(es, ", "))
+	case *types.Array:
+		v := g.newVar("a")
+		g.stmts = append(g.stmts, fmt.Sprintf("var %s %s", v, g.typeStr(t)))
+		for k, en := range n.Elems {
+			g.stmts = append(g.stmts, fmt.Sprintf("%s[%d] = %s", v, k, g.build(en)))
+		}
+		return v
+	case *types.Map:
+		return g.typeStr(t) + "{}"
+	case *types.Interface:
+		return "nil"
+	}
+	return "nil"
+}
+
+// ---------- clause compiler (contract expression -> Go) ----------
+
+type cexpr struct {
+	code string
+	kind string // big, bool, go
+	typ  types.Type
+}
+
+type clauseCompiler struct {
+	g      *goGen
+	prog   *Program
+	pkg    *types.Package
+	vars   map[string]cexpr
+	lets   map[string]Expr
+	olds   []string // statements evaluated before the call
+	inOld  bool
+	nold   int
+	specs  map[string]bool
+	specFn []string
+	err    string
+}
+
+func (cc *clauseCompiler) fail(format string, a ...interface{}) cexpr {
+	if cc.err == "" {
+		cc.err = fmt.Sprintf(format, a...)
+	}
+	return cexpr{code: "false", kind: "bool"}
+}
+
+func (cc *clauseCompiler) toBig(e cexpr) cexpr {
+	switch e.kind {
+	case "big":
+		return e
+	case "go":
+		if b, ok := e.typ.Underlying().(*types.Basic); ok && b.Info()&types.IsInteger != 0 {
+			if b.Info()&types.IsUnsigned != 0 {
+				return cexpr{code: fmt.Sprintf("new(big.Int).SetUint64(uint64(%s))", e.code), kind: "big"}
+			}
+			return cexpr{code: fmt.Sprintf("big.NewInt(int64(%s))", e.code), kind: "big"}
+		}
+	}
+	return cc.fail("cannot convert %s to an integer", e.code)
+}
+
+func (cc *clauseCompiler) compile(x Expr) cexpr {
+	switch n := x.(type) {
+	case *EInt:
+		return cexpr{code: fmt.Sprintf("bi(%q)", n.V), kind: "big"}
+	case *EBool:
+		return cexpr{code: fmt.Sprint(n.V), kind: "bool"}
+	case *ENil:
+		return cexpr{code: "nil", kind: "go"}
+	case *EIdent:
+		if v, ok := cc.vars[n.Name]; ok {
+			return v
+		}
+		if le, ok := cc.lets[n.Name]; ok {
+			return cc.compile(le)
+		}
+		if obj := cc.pkg.Scope().Lookup(n.Name); obj != nil {
+			switch o := obj.(type) {
+			case *types.Const:
+				return cexpr{code: n.Name, kind: "go", typ: o.Type()}
+			case *types.Var:
+				return cexpr{code: n.Name, kind: "go", typ: o.Type()}
+			}
+		}
+		return cc.fail("unknown identifier %s", n.Name)
+	case *EOld:
+		if cc.inOld {
+			return cc.compile(n.X)
+		}
+		cc.inOld = true
+		inner := cc.compile(n.X)
+		cc.inOld = false
+		cc.nold++
+		v := fmt.Sprintf("old%d", cc.nold)
+		cc.olds = append(cc.olds, fmt.Sprintf("%s := %s", v, inner.code))
+		return cexpr{code: v, kind: inner.kind, typ: inner.typ}
+	case *EUn:
+		v := cc.compile(n.X)
+		if n.Op == "!" {
+			return cexpr{code: "!(" + v.code + ")", kind: "bool"}
+		}
+		b := cc.toBig(v)
+		return cexpr{code: fmt.Sprintf("new(big.Int).Neg(%s)", b.code), kind: "big"}
+	case *ECond:
+		c := cc.compile(n.C)
+		a, b := cc.compile(n.A), cc.compile(n.B)
+		if a.kind == "bool" {
+			return cexpr{code: fmt.Sprintf("func() bool { if %s { return %s }; return %s }()", c.code, a.code, b.code), kind: "bool"}
+		}
+		if a.kind == "go" && b.kind == "go" && a.typ != nil {
+			if bb, ok := a.typ.Underlying().(*types.Basic); !ok || bb.Info()&types.IsInteger == 0 {
+				return cexpr{code: fmt.Sprintf("func() %s { if %s { return %s }; return %s }()", cc.g.typeStr(a.typ), c.code, a.code, b.code), kind: "go", typ: a.typ}
+			}
+		}
+		ab, bb := cc.toBig(a), cc.toBig(b)
+		return cexpr{code: fmt.Sprintf("func() *big.Int { if %s { return %s }; return %s }()", c.code, ab.code, bb.code), kind: "big"}
+	case *EBin:
+		return cc.compileBin(n)
+	case *ESel:
+		return cc.compileSel(n)
+	case *EIdx:
+		xv := cc.compile(n.X)
+		iv := cc.compile(n.I)
+		if xv.kind != "go" || xv.typ == nil {
+			return cc.fail("cannot index %s", xv.code)
+		}
+		switch u := xv.typ.Underlying().(type) {
+		case *types.Slice:
+			return cexpr{code: fmt.Sprintf("%s[int(%s.Int64())]", xv.code, cc.toBig(iv).code), kind: "go", typ: u.Elem()}
+		case *types.Array:
+			return cexpr{code: fmt.Sprintf("%s[int(%s.Int64())]", xv.code, cc.toBig(iv).code), kind: "go", typ: u.Elem()}
+		case *types.Map:
+			if iv.kind == "go" {
+				return cexpr{code: fmt.Sprintf("%s[%s]", xv.code, iv.code), kind: "go", typ: u.Elem()}
+			}
+		}
+		return cc.fail("unsupported index expression")
+	case *ECall:
+		return cc.compileCall(n)
+	case *EQuant:
+		return cc.fail("quantifiers are not replayable")
+	}
+	return cc.fail("unsupported expression %T", x)
+}
+
+func (cc *clauseCompiler) compileSel(n *ESel) cexpr {
+	if id, ok := n.X.(*EIdent); ok {
+		if _, isVar := cc.vars[id.Name]; !isVar {
+			if _, isLet := cc.lets[id.Name]; !isLet {
+				for _, imp := range cc.pkg.Imports() {
+					if imp.Name() == id.Name {
+						if obj := imp.Scope().Lookup(n.Name); obj != nil {
+							cc.g.imports[imp.Path()] = imp.Name()
+							return cexpr{code: id.Name + "." + n.Name, kind: "go", typ: obj.Type()}
+						}
+					}
+				}
+			}
+		}
+	}
+	x := cc.compile(n.X)
+	if x.kind != "go" || x.typ == nil {
+		return cc.fail("selector on non-Go value %s", x.code)
+	}
+	if n.Name == "val" && isPtrTo(x.typ, isBigInt) {
+		return cexpr{code: fmt.Sprintf("new(big.Int).Set(%s)", x.code), kind: "big"}
+	}
+	_, ft, ok := fieldPath(x.typ, n.Name)
+	if !ok {
+		return cc.fail("no field %s", n.Name)
+	}
+	return cexpr{code: x.code + "." + n.Name, kind: "go", typ: ft}
+}
+
+func (cc *clauseCompiler) compileBin(n *EBin) cexpr {
+	switch n.Op {
+	case "==>":
+		return cexpr{code: fmt.Sprintf("(!(%s) || (%s))", cc.compile(n.L).code, cc.compile(n.R).code), kind: "bool"}
+	case "<==>":
+		return cexpr{code: fmt.Sprintf("((%s) == (%s))", cc.compile(n.L).code, cc.compile(n.R).code), kind: "bool"}
+	case "&&", "||":
+		return cexpr{code: fmt.Sprintf("((%s) %s (%s))", cc.compile(n.L).code, n.Op, cc.compile(n.R).code), kind: "bool"}
+	case "in":
+		k, m := cc.compile(n.L), cc.compile(n.R)
+		if m.kind == "go" && k.kind == "go" {
+			return cexpr{code: fmt.Sprintf("func() bool { _, ok := %s[%s]; return ok }()", m.code, k.code), kind: "bool"}
+		}
+		return cc.fail("unsupported 'in'")
+	}
+	a, b := cc.compile(n.L), cc.compile(n.R)
+	switch n.Op {
+	case "==", "!=":
+		// nil / pointer / bool comparisons stay in Go; integers go through big
+		isNil := func(e cexpr) bool { return e.code == "nil" }
+		goCmp := false
+		if isNil(a) || isNil(b) || a.kind == "bool" || b.kind == "bool" {
+			goCmp = true
+		} else if a.kind == "go" && b.kind == "go" {
+			if bb, ok := a.typ.Underlying().(*types.Basic); !ok || bb.Info()&types.IsInteger == 0 {
+				goCmp = true
+			}
+		}
+		if goCmp {
+			return cexpr{code: fmt.Sprintf("(%s %s %s)", a.code, n.Op, b.code), kind: "bool"}
+		}
+		return cexpr{code: fmt.Sprintf("(%s.Cmp(%s) %s 0)", cc.toBig(a).code, cc.toBig(b).code, n.Op), kind: "bool"}
+	case "<", "<=", ">", ">=":
+		return cexpr{code: fmt.Sprintf("(%s.Cmp(%s) %s 0)", cc.toBig(a).code, cc.toBig(b).code, n.Op), kind: "bool"}
+	case "+", "-", "*":
+		m := map[string]string{"+": "Add", "-": "Sub", "*": "Mul"}[n.Op]
+		return cexpr{code: fmt.Sprintf("new(big.Int).%s(%s, %s)", m, cc.toBig(a).code, cc.toBig(b).code), kind: "big"}
+	case "/":
+		return cexpr{code: fmt.Sprintf("new(big.Int).Quo(%s, %s)", cc.toBig(a).code, cc.toBig(b).code), kind: "big"}
+	case "%":
+		return cexpr{code: fmt.Sprintf("new(big.Int).Rem(%s, %s)", cc.toBig(a).code, cc.toBig(b).code), kind: "big"}
+	}
+	return cc.fail("unsupported operator %s", n.Op)
+}
+
+func (cc *clauseCompiler) compileCall(n *ECall) cexpr {
+	arg := func(i int) cexpr { return cc.compile(n.Args[i]) }
+	two := func(m string) cexpr {
+		return cexpr{code: fmt.Sprintf("new(big.Int).%s(%s, %s)", m, cc.toBig(arg(0)).code, cc.toBig(arg(1)).code), kind: "big"}
+	}
+	switch n.Fn {
+	case "div":
+		return two("Div")
+	case "mod":
+		return two("Mod")
+	case "quo":
+		return two("Quo")
+	case "rem":
+		return two("Rem")
+	case "abs":
+		return cexpr{code: fmt.Sprintf("new(big.Int).Abs(%s)", cc.toBig(arg(0)).code), kind: "big"}
+	case "min", "max":
+		op := "<"
+		if n.Fn == "max" {
+			op = ">"
+		}
+		a, b := cc.toBig(arg(0)), cc.toBig(arg(1))
+		return cexpr{code: fmt.Sprintf("func() *big.Int { x, y := %s, %s; if x.Cmp(y) %s 0 { return x }; return y }()", a.code, b.code, op), kind: "big"}
+	case "len":
+		a := arg(0)
+		return cexpr{code: fmt.Sprintf("big.NewInt(int64(len(%s)))", a.code), kind: "big"}
+	case "fresh", "allocated":
+		return cexpr{code: "true", kind: "bool"}
+	case "isqrt":
+		return cexpr{code: fmt.Sprintf("new(big.Int).Sqrt(%s)", cc.toBig(arg(0)).code), kind: "big"}
+	}
+	if sf, ok := cc.prog.Specs[n.Fn]; ok && sf.Body != nil {
+		name := "spec_" + sf.Name
+		if !cc.specs[sf.Name] {
+			cc.specs[sf.Name] = true
+			// compile the spec function to a Go function
+			sub := &clauseCompiler{g: cc.g, prog: cc.prog, pkg: cc.prog.typesPkg(sf.Pkg), vars: map[string]cexpr{}, lets: map[string]Expr{}, specs: cc.specs}
+			if sub.pkg == nil {
+				sub.pkg = cc.pkg
+			}
+			e := &Env{c: NewCtx(cc.prog, "replay"), vars: map[string]SVal{}, pkg: sub.pkg, g: tTrue}
+			var ps []string
+			for _, p := range sf.Params {
+				_, ty := e.specSort(p.Type)
+				if ty == nil {
+					if p.Type != "int" {
+						return cc.fail("spec %s has a parameter of spec-only type %s", sf.Name, p.Type)
+					}
+					ps = append(ps, p.Name+" *big.Int")
+					sub.vars[p.Name] = cexpr{code: p.Name, kind: "big"}
+				} else {
+					ps = append(ps, p.Name+" "+cc.g.typeStr(ty))
+					sub.vars[p.Name] = cexpr{code: p.Name, kind: "go", typ: ty}
+				}
+			}
+			ret := "*big.Int"
+			var body cexpr
+			switch sf.Ret {
+			case "bool":
+				ret = "bool"
+				body = sub.compile(sf.Body)
+			case "int":
+				body = sub.toBig(sub.compile(sf.Body))
+			default:
+				return cc.fail("spec %s returns %s (not replayable)", sf.Name, sf.Ret)
+			}
+			if sub.err != "" {
+				return cc.fail("spec %s: %s", sf.Name, sub.err)
+			}
+			cc.specFn = append(cc.specFn, sub.specFn...)
+			cc.specFn = append(cc.specFn, fmt.Sprintf("func %s(%s) %s { return %s }", name, strings.Join(ps, ", "), ret, body.code))
+		}
+		var as []string
+		for i, p := range sf.Params {
+			a := arg(i)
+			if p.Type == "int" {
+				a = cc.toBig(a)
+			}
+			as = append(as, a.code)
+		}
+		kind := "big"
+		if sf.Ret == "bool" {
+			kind = "bool"
+		}
+		return cexpr{code: fmt.Sprintf("%s(%s)", name, strings.Join(as, ", ")), kind: kind}
+	}
+	return cc.fail("function %s is not replayable", n.Fn)
+}
+
+// ---------- driver ----------
+
+func tryReplay(prog *Program, o *Obligation, u *Unit) replayResult {
+	res := replayResult{}
+	if u == nil || u.Fn == nil || u.Contract == nil || u.Inputs == nil {
+		res.Reason = "no replay harness for this unit"
+		return res
+	}
+	if o.Kind != "ensures" && o.Kind != "panic" {
+		res.Reason = "no replay harness for obligations of kind " + o.Kind
+		return res
+	}
+	if len(o.Model) == 0 {
+		res.Reason = "solver returned no model values"
+		return res
+	}
+	fn := u.Fn
+	ct := u.Contract
+	g := &goGen{pkg: fn.Pkg.Pkg, model: o.Model, imports: map[string]string{"math/big": "big", "testing": "testing"}, objs: map[string]string{}}
+	var args []string
+	for _, p := range u.Inputs.Params {
+		args = append(args, g.build(p))
+	}
+	cc := &clauseCompiler{g: g, prog: prog, pkg: fn.Pkg.Pkg, vars: map[string]cexpr{}, lets: letMap(ct), specs: map[string]bool{}}
+	sig := fn.Signature
+	pi := 0
+	var recvVar string
+	var callArgs []string
+	var decls []string
+	if sig.Recv() != nil {
+		name := sig.Recv().Name()
+		if name == "" || name == "_" {
+			name = "recv"
+		}
+		recvVar = "in_" + name
+		decls = append(decls, fmt.Sprintf("%s := %s", recvVar, args[pi]))
+		cc.vars[name] = cexpr{code: recvVar, kind: "go", typ: sig.Recv().Type()}
+		pi++
+	}
+	for k := 0; k < sig.Params().Len(); k++ {
+		p := sig.Params().At(k)
+		name := p.Name()
+		if name == "" || name == "_" {
+			name = fmt.Sprintf("arg%d", k)
+		}
+		v := "in_" + name
+		var ty types.Type = p.Type()
+		decls = append(decls, fmt.Sprintf("var %s %s = %s", v, g.typeStr(ty), args[pi]))
+		cc.vars[name] = cexpr{code: v, kind: "go", typ: ty}
+		callArgs = append(callArgs, v)
+		pi++
+	}
+	// results
+	var resVars []string
+	for k := 0; k < sig.Results().Len(); k++ {
+		rv := fmt.Sprintf("res%d", k)
+		resVars = append(resVars, rv)
+		r := sig.Results().At(k)
+		ce := cexpr{code: rv, kind: "go", typ: r.Type()}
+		if b, ok := r.Type().Underlying().(*types.Basic); ok && b.Info()&types.IsBoolean != 0 {
+			ce.kind = "bool"
+		}
+		if n := r.Name(); n != "" && n != "_" {
+			cc.vars[n] = ce
+		}
+		cc.vars[fmt.Sprintf("result%d", k)] = ce
+		if k == 0 {
+			cc.vars["result"] = ce
+		}
+	}
+	// booleans among parameters
+	for name, v := range cc.vars {
+		if v.typ != nil {
+			if b, ok := v.typ.Underlying().(*types.Basic); ok && b.Info()&types.IsBoolean != 0 {
+				v.kind = "bool"
+				cc.vars[name] = v
+			}
+		}
+	}
+	// preconditions (evaluated before the call) and the violated clause
+	var pre []string
+	for _, r := range ct.Requires {
+		e := cc.compile(r.E)
+		if cc.err != "" {
+			// a precondition that cannot be evaluated dynamically is skipped (the model satisfied it symbolically)
+			cc.err = ""
+			continue
+		}
+		pre = append(pre, e.code)
+	}
+	preOlds := cc.olds
+	cc.olds = nil
+	check := ""
+	if o.Kind == "ensures" {
+		var cl *Clause
+		for k, e := range ct.Ensures {
+			if o.Name == fmt.Sprintf("%s/ensures#%s", o.Func, clauseLabel(e, k)) {
+				cl = e
+			}
+		}
+		if cl == nil {
+			res.Reason = "clause not found"
+			return res
+		}
+		e := cc.compile(cl.E)
+		if cc.err != "" {
+			res.Reason = "clause is not replayable: " + cc.err
+			return res
+		}
+		check = e.code
+	}
+	if g.unsup != "" {
+		res.Reason = g.unsup
+		return res
+	}
+	call := ""
+	fname := fn.Name()
+	if recvVar != "" {
+		call = fmt.Sprintf("%s.%s(%s)", recvVar, fname, strings.Join(callArgs, ", "))
+	} else {
+		call = fmt.Sprintf("%s(%s)", fname, strings.Join(callArgs, ", "))
+	}
+	if len(resVars) > 0 {
+		call = strings.Join(resVars, ", ") + " := " + call
+	}
+	var b strings.Builder
+	testName := "TestGovcReplay"
+	fmt.Fprintf(&b, "package %s\n\nimport (\n", fn.Pkg.Pkg.Name())
+	var imps []string
+	for p := range g.imports {
+		imps = append(imps, p)
+	}
+	sort.Strings(imps)
+	for _, p := range imps {
+		fmt.Fprintf(&b, "\t%s %q\n", g.imports[p], p)
+	}
+	b.WriteString(")\n\n")
+	b.WriteString("func bi(s string) *big.Int { v, _ := new(big.Int).SetString(s, 10); return v }\n\n")
+	if _, ok := g.imports["reflect"]; ok {
+		b.WriteString("func zeroResults(t reflect.Type) []reflect.Value {\n\tvar out []reflect.Value\n\tfor i := 0; i < t.NumOut(); i++ {\n\t\tout = append(out, reflect.Zero(t.Out(i)))\n\t}\n\treturn out\n}\n\n")
+	}
+	for _, sfn := range cc.specFn {
+		b.WriteString(sfn + "\n\n")
+	}
+	fmt.Fprintf(&b, "// replay of obligation %s\n// clause: %s\nfunc %s(t *testing.T) {\n", o.Name, o.Src, testName)
+	for _, s := range g.stmts {
+		b.WriteString("\t" + s + "\n")
+	}
+	for _, s := range decls {
+		b.WriteString("\t" + s + "\n")
+	}
+	for _, s := range preOlds {
+		b.WriteString("\t" + s + "\n")
+	}
+	for _, p := range pre {
+		fmt.Fprintf(&b, "\tif !(%s) {\n\t\tt.Skip(\"GOVC-REPLAY-PRECONDITION-NOT-MET\")\n\t}\n", p)
+	}
+	for _, s := range cc.olds {
+		b.WriteString("\t" + s + "\n")
+	}
+	if o.Kind == "panic" {
+		b.WriteString("\tdefer func() {\n\t\tif r := recover(); r != nil {\n\t\t\tt.Fatalf(\"GOVC-REPLAY-VIOLATION: panic: %v\", r)\n\t\t}\n\t}()\n")
+	}
+	b.WriteString("\t" + call + "\n")
+	for _, rv := range resVars {
+		b.WriteString("\t_ = " + rv + "\n")
+	}
+	if check != "" {
+		fmt.Fprintf(&b, "\tif !(%s) {\n\t\tt.Fatalf(\"GOVC-REPLAY-VIOLATION: postcondition violated\")\n\t}\n", check)
+	}
+	b.WriteString("}\n")
+	res.Attempted = true
+	res.TestSource = b.String()
+	res.TestName = testName
+	res.PackageDir = strings.TrimPrefix(fn.Pkg.Pkg.Path(), modulePath+"/")
+	out, failed := runReplayTest(res.PackageDir, res.TestSource, testName)
+	res.Output = out
+	if failed && strings.Contains(out, "GOVC-REPLAY-VIOLATION") {
+		res.Confirmed = true
+	} else if strings.Contains(out, "GOVC-REPLAY-PRECONDITION-NOT-MET") {
+		res.Reason = "the model's inputs do not satisfy the precondition on the real code (abstraction artefact)"
+	} else if failed {
+		res.Reason = "replay test did not run to a verdict (build error or unexpected panic)"
+	} else {
+		res.Reason = "the real code satisfies the clause on the model's inputs (abstraction artefact or inputs not fully constructible)"
+	}
+	return res
+}
+
+// runReplayTest injects the test into the package through an overlay and runs it. failed = test did not pass.
+func runReplayTest(pkgDir, src, testName string) (string, bool) {
+	tmp, err := os.MkdirTemp("", "govc-replay-")
+	if err != nil {
+		return err.Error(), false
+	}
+	defer os.RemoveAll(tmp)
+	tf := filepath.Join(tmp, "zz_govc_replay_test.go")
+	if err := os.WriteFile(tf, []byte(src), 0o644); err != nil {
+		return err.Error(), false
+	}
+	ov := map[string]map[string]string{"Replace": {filepath.Join(repoDir(), pkgDir, "zz_govc_replay_test.go"): tf}}
+	ob, _ := json.Marshal(ov)
+	of := filepath.Join(tmp, "overlay.json")
+	os.WriteFile(of, ob, 0o644)
+	cmd := exec.Command("go", "test", "-overlay", of, "-vet=off", "-timeout", "60s", "-count=1", "-run", "^"+testName+"$", "./"+pkgDir+"/")
+	cmd.Dir = repoDir()
+	cmd.Env = append(os.Environ(), "GOFLAGS=-mod=mod", "GOPROXY=off", "GOSUMDB=off", "GOTOOLCHAIN=local")
+	done := make(chan struct{})
+	var out []byte
+	go func() { out, err = cmd.CombinedOutput(); close(done) }()
+	select {
+	case <-done:
+	case <-time.After(10 * time.Minute):
+		cmd.Process.Kill()
+		return "replay timed out", false
+	}
+	s := string(out)
+	if len(s) > 6000 {
+		s = s[:3000] + "\n...\n" + s[len(s)-3000:]
+	}
+	return s, err != nil
+}
